@@ -238,4 +238,33 @@ theorem fixed_binding_dead_for_ever_old (evs : List Ev) (h : HSt) (s : Site) (c 
   have hg : Expected.C10.oldFacts.guardPlain = true := rfl
   constructor <;> simp [alive, useFrameId, hb, hs, newId, guardOk, hg, HSt.refresh] <;> omega
 
+/-! ### the relational form: cancelled evaluations are invisible -/
+
+/-- an event that is not a cancelled evaluation -/
+def keep : Ev → Bool
+  | .cancelled _ => false
+  | _ => true
+
+theorem runSpec_filter (h : HSt) (evs : List Ev) : runSpec h evs = runSpec h (evs.filter keep) := by
+  unfold runSpec
+  induction evs generalizing h with
+  | nil => rfl
+  | cons e es ih =>
+    cases e with
+    | cancelled c => simp only [List.foldl_cons, stepSpec, keep, List.filter_cons, Bool.false_eq_true, if_false]; exact ih h
+    | define k a b blk => simp only [List.foldl_cons, keep, List.filter_cons, if_true]; exact ih _
+    | use d v x => simp only [List.foldl_cons, keep, List.filter_cons, if_true]; exact ih _
+
+/-- **Two histories that differ only in their cancelled evaluations return the same results**: cancelled
+    evaluations may be added, removed, moved and changed in kind, anywhere and in any number, and no use
+    of any definition — through `Eval`, `EvalWithContext` or a direct host call — can tell (relational
+    corollary of `definitions_survive`; in particular the history with none of them is one of the two). -/
+theorem cancellations_invisible (evs evs' : List Ev) (h : evs.filter keep = evs'.filter keep) :
+    (runHist Generated.C10.facts HSt.init evs).results = (runHist Generated.C10.facts HSt.init evs').results := by
+  rw [definitions_survive evs, definitions_survive evs', runSpec_filter _ evs, runSpec_filter _ evs', h]
+
+/-- non-vacuity: `exHist` and the same history with its four cancellations removed, and with two more added -/
+example : exHist.filter keep = (Ev.cancelled .busyLoop :: (exHist ++ [Ev.cancelled .blockedChan])).filter keep ∧
+    (exHist.filter keep).length = 16 ∧ exHist.length = 20 := by decide
+
 end YaegiVerif.Props.C10
